@@ -5,6 +5,7 @@ import (
 	"fmt"
 	"io"
 	"sync"
+	"time"
 
 	"github.com/biogo/hts/bgzf"
 	"github.com/biogo/hts/bgzf/cache"
@@ -26,6 +27,7 @@ type Src struct {
 	Partial  bool
 	Sticky   bool // once failed, every later Read fails too
 	failed   bool
+	Delay    time.Duration // every Read takes this long (a slow device: the read-ahead lags)
 }
 
 func (s *Src) Read(p []byte) (int, error) {
@@ -42,6 +44,9 @@ func (s *Src) Read(p []byte) (int, error) {
 			n, _ = s.R.Read(p[:len(p)/2])
 		}
 		return n, ErrInjected
+	}
+	if s.Delay > 0 {
+		time.Sleep(s.Delay)
 	}
 	return s.R.Read(p)
 }
@@ -118,6 +123,12 @@ type RScenario struct {
 	Sticky     bool
 	Ref        []tr.M // replies of the reference (uncached) run, for "same" comparison
 	SrcKind    string // "" = seekable *Src; "stream", "bytestream" = sources that cannot seek (histories without Seek)
+	// schedule replay: called before every operation / around every cache the scenario attaches
+	BeforeOp  func(i int, o ROp)
+	WrapCache func(bgzf.Cache) bgzf.Cache
+	SrcDelay  time.Duration // see Src.Delay
+	Settle    time.Duration // pause after every operation (the read-ahead runs to a standstill in between)
+	Hdr       tr.M          // extra header fields
 }
 
 func newCacheOf(kind string, n int, stats bool) bgzf.Cache {
@@ -151,9 +162,13 @@ func RunReader(t *tr.Writer, sc RScenario) []tr.M {
 	if n := len(sc.File.Members); n > 0 {
 		fileEnd = sc.File.Members[n-1].Base + int64(sc.File.Members[n-1].Size)
 	}
-	t.Begin("reader/"+sc.Class, tr.M{"file": sc.File.Layout(), "fileEnd": fileEnd, "total": sc.File.Total, "rd": sc.RD,
-		"faultable": sc.Faultable, "altered": sc.Altered, "cutLen": sc.CutLen, "failRead": sc.FailRead, "failSeek": sc.FailSeek, "streamLen": len(stream)})
-	src := &Src{R: bytes.NewReader(stream), FailRead: sc.FailRead, FailSeek: sc.FailSeek, Partial: sc.Partial, Sticky: sc.Sticky}
+	hdr := tr.M{"file": sc.File.Layout(), "fileEnd": fileEnd, "total": sc.File.Total, "rd": sc.RD,
+		"faultable": sc.Faultable, "altered": sc.Altered, "cutLen": sc.CutLen, "failRead": sc.FailRead, "failSeek": sc.FailSeek, "streamLen": len(stream)}
+	for k, v := range sc.Hdr {
+		hdr[k] = v
+	}
+	t.Begin("reader/"+sc.Class, hdr)
+	src := &Src{R: bytes.NewReader(stream), FailRead: sc.FailRead, FailSeek: sc.FailSeek, Partial: sc.Partial, Sticky: sc.Sticky, Delay: sc.SrcDelay}
 	var br *bgzf.Reader
 	var err error
 	var replies []tr.M
@@ -198,12 +213,27 @@ func RunReader(t *tr.Writer, sc RScenario) []tr.M {
 	haveLast := false
 	var hpos int64
 	closed := false
-	for _, o := range sc.Ops {
+	for oi, o := range sc.Ops {
+		if sc.BeforeOp != nil {
+			sc.BeforeOp(oi, o)
+		}
+		if sc.Settle > 0 {
+			time.Sleep(sc.Settle)
+		}
 		switch o.K {
-		case "read", "readbyte":
+		case "read", "readbyte", "cross", "rest":
 			n := o.N
 			if o.K == "readbyte" {
 				n = 1
+			}
+			if o.K == "cross" {
+				// a Read that takes the rest of the current block and one byte of the next
+				n = br.BlockLen() + 1
+			}
+			if o.K == "rest" {
+				// a Read that takes exactly the rest of the current block (a zero-length Read after it
+				// moves to the next block without reading from it)
+				n = br.BlockLen()
 			}
 			buf := make([]byte, n)
 			var k int
@@ -279,6 +309,9 @@ func RunReader(t *tr.Writer, sc RScenario) []tr.M {
 						other.Close()
 					})
 				}
+			}
+			if sc.WrapCache != nil && c != nil {
+				c = sc.WrapCache(c)
 			}
 			br.SetCache(c)
 			// not part of the replies compared with the reference run
